@@ -603,6 +603,9 @@ func runC06(r *rt.Runner) {
 			rng := c.Rand()
 			mf := genModelFont(rng)
 			data := ref.RenderType1(rng, mf.w, mf.lay)
+			if mf.lay.SparseSubrs && len(mf.lay.Subrs) > 0 && mf.lay.Subrs[len(mf.lay.Subrs)-1] != nil {
+				c.Count("feature: subroutines behind unused Subrs slots")
+			}
 			c.SetDetail(func() string {
 				return fmt.Sprintf("layout: container=%s lenIV=%d dash=%v decorate=%v flex=%v hintrepl=%v factor=%d fivebyte=%d%% general=%d%% subrs=%d\nexpected font:\n%s",
 					mf.lay.Container, mf.lay.LenIV, mf.lay.Dash, mf.lay.Decorate, mf.lay.Flex, mf.lay.HintRepl, mf.lay.Factor, mf.lay.FiveByte, mf.lay.General, len(mf.lay.Subrs), describeFont(mf.want))
